@@ -46,9 +46,18 @@ class SlotType(BitsInterface):
             self.fec_parity = numpy_array_to_int(
                 Golay2087.generate(self.as_bits()[:8])[8:]
             )
-
-        # check parity
-        self.fec_parity_ok: bool = Golay2087.check(self.as_bits())
+            self.fec_parity_ok: bool = Golay2087.check(self.as_bits())
+        else:
+            # check parity of the word as it was given: a reserved data type value (13-15) is kept
+            # as DataTypes.Reserved (12) in the object, the parity belongs to the value received
+            self.fec_parity_ok: bool = Golay2087.check(
+                int2ba(colour_code, length=4)
+                + int2ba(
+                    data_type.value if isinstance(data_type, DataTypes) else data_type,
+                    length=4,
+                )
+                + int2ba(parity, length=12)
+            )
 
     def as_bits(self) -> bitarray:
         return (
